@@ -384,19 +384,28 @@ structure Loop (σ : Type) where
 
 /-- The scripted outcome of the scrape itself. -/
 inductive Scrape where
+  /-- `scraper.scrape` failed: no response, nothing was read -/
   | err
   | body (items : List Item)
+  /-- `scraper.scrape` succeeded but `readResponse` failed (connection cut / timeout in the middle of
+      the body, `body_size_limit` reached, gzip error) AFTER it had copied `read` — an arbitrary part
+      of the body, possibly ending inside a line — into the scrape buffer `buf` -/
+  | readFail (read : List Item)
   deriving Repr
 
-/-- the body handed to `append` (`nil` when the scrape failed) -/
+/-- the body handed to `append`: `b = buf.Bytes()` is taken only `if scrapeErr == nil`; otherwise `b`
+    is still the empty pooled slice (`nil` when the request itself failed), whatever `readResponse`
+    had already written into `buf` -/
 def Scrape.items : Scrape → List Item
   | .err => []
   | .body items => items
+  | .readFail _ => []
 
 /-- `up`: the scrape itself succeeded (the append is checked separately) -/
 def Scrape.isBody : Scrape → Bool
   | .err => false
   | .body _ => true
+  | .readFail _ => false
 
 def rollbackSt {σ} (S : Store σ) (s : LoopSt σ) : LoopSt σ :=
   { s with st := S.rollback s.st, evs := Ev.rollback :: s.evs, i := 0 }
